@@ -2492,12 +2492,44 @@ def elem_cmp(it, ty, a_ref, b_ref, fr):
     return r.variant
 
 
-def heap_max_index(it, hp, fr):
-    best = 0
-    for i in range(1, len(hp.items)):
-        if elem_cmp(it, hp.elem_ty, Ref(hp.items, i), Ref(hp.items, best), fr) == 2:
-            best = i
-    return best
+def _heap_le(it, hp, a, b, fr):
+    """hp.items[a] <= hp.items[b] by the element type's Ord"""
+    return elem_cmp(it, hp.elem_ty, Ref(hp.items, a), Ref(hp.items, b), fr) != 2
+
+
+def _heap_sift_up(it, hp, start, pos, fr):
+    # std: while pos > start { parent = (pos-1)/2; if hole.element() <= hole.get(parent) { break } move parent down }
+    d = hp.items
+    elem = d[pos]
+    while pos > start:
+        parent = (pos - 1) // 2
+        d[pos] = elem          # the hole element is compared through the list
+        if _heap_le(it, hp, pos, parent, fr):
+            break
+        d[pos] = d[parent]
+        pos = parent
+    d[pos] = elem
+    return pos
+
+
+def _heap_sift_down_to_bottom(it, hp, pos, fr):
+    d = hp.items
+    end = len(d)
+    start = pos
+    elem = d[pos]
+    child = 2 * pos + 1
+    while child <= max(end - 2, 0):      # end.saturating_sub(2)
+        # child += (hole.get(child) <= hole.get(child + 1)) as usize
+        if _heap_le(it, hp, child, child + 1, fr):
+            child += 1
+        d[pos] = d[child]
+        pos = child
+        child = 2 * pos + 1
+    if child == end - 1:
+        d[pos] = d[child]
+        pos = child
+    d[pos] = elem
+    _heap_sift_up(it, hp, start, pos, fr)
 
 
 @model('BinaryHeap::new', 'std::collections::BinaryHeap::new')
@@ -2510,33 +2542,55 @@ def m_heap_default(it, args, fr, callee):
     return HeapV()
 
 
-@model('BinaryHeap::push', 'std::collections::BinaryHeap::push')
-def m_heap_push(it, args, fr, callee):
+def _heap_arg(it, args, fr, callee):
     hp = _deref_obj(args[0], HeapV)
     if hp.elem_ty is None:
         hp.elem_ty = _heap_elem_ty(it, callee, fr)
+    return hp
+
+
+@model('BinaryHeap::push', 'std::collections::BinaryHeap::push')
+def m_heap_push(it, args, fr, callee):
+    """std::collections::BinaryHeap::push: append, then sift_up(0, old_len) -- same array layout as the real heap"""
+    hp = _heap_arg(it, args, fr, callee)
+    old_len = len(hp.items)
     hp.items.append(args[1])
+    _heap_sift_up(it, hp, 0, old_len, fr)
     return UNIT
 
 
 @model('BinaryHeap::peek', 'std::collections::BinaryHeap::peek')
 def m_heap_peek(it, args, fr, callee):
-    hp = _deref_obj(args[0], HeapV)
-    if hp.elem_ty is None:
-        hp.elem_ty = _heap_elem_ty(it, callee, fr)
+    hp = _heap_arg(it, args, fr, callee)
     if not hp.items:
         return none()
-    return some(Ref(hp.items, heap_max_index(it, hp, fr)))
+    return some(Ref(hp.items, 0))
 
 
 @model('BinaryHeap::pop', 'std::collections::BinaryHeap::pop')
 def m_heap_pop(it, args, fr, callee):
-    hp = _deref_obj(args[0], HeapV)
-    if hp.elem_ty is None:
-        hp.elem_ty = _heap_elem_ty(it, callee, fr)
+    """std: self.data.pop().map(|mut item| { if !self.is_empty() { swap(&mut item, &mut self.data[0]); sift_down_to_bottom(0) } item })"""
+    hp = _heap_arg(it, args, fr, callee)
     if not hp.items:
         return none()
-    return some(hp.items.pop(heap_max_index(it, hp, fr)))
+    item = hp.items.pop()
+    if hp.items:
+        item, hp.items[0] = hp.items[0], item
+        _heap_sift_down_to_bottom(it, hp, 0, fr)
+    return some(item)
+
+
+@model('BinaryHeap::iter', 'std::collections::BinaryHeap::iter')
+def m_heap_iter(it, args, fr, callee):
+    hp = _heap_arg(it, args, fr, callee)
+    items = hp.items
+    return IterV((Ref(items, i) for i in range(len(items))), 'binaryheap.iter (array order)')
+
+
+@model('BinaryHeap::clear', 'std::collections::BinaryHeap::clear')
+def m_heap_clear(it, args, fr, callee):
+    del _heap_arg(it, args, fr, callee).items[:]
+    return UNIT
 
 
 @model('BinaryHeap::len', 'std::collections::BinaryHeap::len')
@@ -2650,3 +2704,198 @@ def m_entry_or_insert_with(it, args, fr, callee):
 @model('Entry::or_insert', 'std::collections::hash_map::Entry::or_insert', 'hash_map::Entry::or_insert')
 def m_entry_or_insert(it, args, fr, callee):
     return _entry_slot(it, args[0], lambda: args[1], fr)
+
+
+@tmodel('*', 'TryInto', 'try_into')
+def m_try_into(it, args, fr, callee):
+    a = args[0]
+    end = match_close(callee, 0)
+    inner = callee[1:end]
+    k = _top_as(inner)
+    trait = inner[k + 4:].strip()
+    targ = last_generics(trait)
+    dst = it.subst(targ[0], fr) if targ else ''
+    m = re.match(r'^\[(.*); *(\w+)\]$', dst.strip())
+    if m and type(a) in (Slice, Ref, VecV):
+        n = m.group(2)
+        n = int(n) if n.isdigit() else it.eval_count(n, fr)
+        s = as_slice(a)
+        items = slice_items(it, s)
+        if len(items) != n:
+            return err(Opaque('TryFromSliceError'))
+        return ok(Agg('array', None, [copy_val(x) for x in items]))
+    if type(a) is Sc and dst in INT_W:
+        return m_try_from(it, args, fr, '<%s as TryFrom<%s>>::try_from' % (dst, a.t))
+    return NotImplemented
+
+
+@model('Option::ok_or_else', 'std::option::Option::ok_or_else')
+def m_opt_ok_or_else(it, args, fr, callee):
+    o, f = args
+    if o.variant == 1:
+        return ok(o.fields[0])
+    return err(it.call_value(f, [], fr))
+
+
+@model('Result::unwrap_or_else', 'std::result::Result::unwrap_or_else')
+def m_res_unwrap_or_else(it, args, fr, callee):
+    o, f = args
+    if o.variant == 0:
+        return o.fields[0]
+    return it.call_value(f, [o.fields[0]], fr)
+
+
+@model('Result::and_then', 'std::result::Result::and_then')
+def m_res_and_then(it, args, fr, callee):
+    o, f = args
+    if o.variant == 1:
+        return o
+    return it.call_value(f, [o.fields[0]], fr)
+
+
+@model('Result::is_ok', 'Result::is_err')
+def m_res_is_ok(it, args, fr, callee):
+    o = _deref_arg(args[0])
+    return Sc('bool', int((o.variant == 0) == callee.endswith('is_ok')))
+
+
+@_int_method('to_ne_bytes')
+def m_to_ne_bytes(it, args, fr, callee):
+    from wasmsym.hostwasm import byte_of
+    w = args[0]
+    return Agg('array', None, [byte_of(it, Sc(w.t, w.v), k) for k in range(INT_W[w.t] // 8)])
+
+
+@_int_method('from_ne_bytes')
+def m_from_ne_bytes(it, args, fr, callee):
+    from wasmsym.hostwasm import join_bytes
+    m = re.search(r'impl (u\d+|i\d+|usize|isize)', callee)
+    t = m.group(1) if m else 'u64'
+    return Sc(t, join_bytes(it, args[0].fields))
+
+
+@_int_method('saturating_mul')
+def m_sat_mul(it, args, fr, callee):
+    a, b = args
+    t = a.t
+    w = INT_W[t]
+    if t in SIGNED:
+        raise Unsupported('signed saturating_mul')
+    if isinstance(a.v, int) and isinstance(b.v, int):
+        return Sc(t, min(mask(w), a.v * b.v))
+    r = it.binop('MulWithOverflow', a, b)
+    return Sc(t, z3.If(it.bv(r.fields[1]) == 1, z3.BitVecVal(mask(w), w), it.bv(r.fields[0])))
+
+
+@model('core::str::starts_with', 'str::starts_with')
+def m_str_starts_with(it, args, fr, callee):
+    s, p = _deref_all(args[0]), _deref_all(args[1])
+    if type(s) is StrV and type(p) is StrV:
+        return Sc('bool', int(s.s.startswith(p.s)))
+    raise Unsupported('str::starts_with on %r' % (s,))
+
+
+@model('core::str::strip_prefix', 'str::strip_prefix')
+def m_str_strip_prefix(it, args, fr, callee):
+    s, p = _deref_all(args[0]), _deref_all(args[1])
+    if type(s) is StrV and type(p) is StrV:
+        return some(StrV(s.s[len(p.s):])) if s.s.startswith(p.s) else none()
+    raise Unsupported('str::strip_prefix')
+
+
+# float classification predicates ------------------------------------------------------------------------
+def _fpred(name, conc, sym):
+    def f(it, args, fr, callee):
+        x = args[0].v
+        if isinstance(x, int):
+            return Sc('bool', int(bool(conc(x))))
+        return Sc('bool', _b2bv(sym(x)))
+    for pre in ('core::f64::', 'f64::', 'std::f64::'):
+        MODELS[pre + name] = f
+
+
+def _is_subnormal_bits(b):
+    e = (b >> 52) & 0x7ff
+    return e == 0 and (b & ((1 << 52) - 1)) != 0
+
+
+_fpred('is_subnormal', _is_subnormal_bits, lambda x: z3.fpIsSubnormal(x))
+_fpred('is_normal', lambda b: 0 < ((b >> 52) & 0x7ff) < 0x7ff, lambda x: z3.fpIsNormal(x))
+_fpred('is_sign_negative', lambda b: b >> 63, lambda x: z3.fpIsNegative(x))
+_fpred('is_sign_positive', lambda b: not (b >> 63), lambda x: z3.Not(z3.fpIsNegative(x)))
+
+
+@model('core::f64::copysign', 'f64::copysign', 'std::f64::copysign')
+def m_copysign(it, args, fr, callee):
+    a, b = it.smt.fp_to_bits(args[0].v), it.smt.fp_to_bits(args[1].v)
+    if isinstance(a, int) and isinstance(b, int):
+        return Sc('f64', (a & mask(63)) | (b & (1 << 63)))
+    A = z3.BitVecVal(a, 64) if isinstance(a, int) else a
+    B = z3.BitVecVal(b, 64) if isinstance(b, int) else b
+    return Sc('f64', it.smt.fp_from_bits(z3.Concat(z3.Extract(63, 63, B), z3.Extract(62, 0, A))))
+
+
+@model('core::f64::signum', 'f64::signum', 'std::f64::signum')
+def m_signum(it, args, fr, callee):
+    x = args[0].v
+    if isinstance(x, int):
+        f = S.b2f(x)
+        return Sc('f64', x if f != f else S.f2b(-1.0 if (x >> 63) else 1.0))
+    one, mone = it.smt.fpval(S.f2b(1.0)), it.smt.fpval(S.f2b(-1.0))
+    return Sc('f64', z3.If(z3.fpIsNaN(x), x, z3.If(z3.fpIsNegative(x), mone, one)))
+
+
+@model('core::f64::mul_add', 'f64::mul_add', 'std::f64::mul_add')
+def m_mul_add(it, args, fr, callee):
+    a, b, c = [it.smt.fp_lift(x.v) for x in args]
+    return Sc('f64', z3.simplify(z3.fpFMA(S.RNE, a, b, c)) if all(isinstance(x.v, int) for x in args) else z3.fpFMA(S.RNE, a, b, c))
+
+
+@model('core::f64::recip', 'f64::recip', 'std::f64::recip')
+def m_recip(it, args, fr, callee):
+    return it.fbinop('Div', Sc('f64', S.f2b(1.0)), args[0])
+
+
+@model('core::f64::fract', 'f64::fract', 'std::f64::fract')
+def m_fract(it, args, fr, callee):
+    t = MODELS['f64::trunc'](it, args, fr, callee)
+    return it.fbinop('Sub', args[0], t)
+
+
+@model('core::f64::rem_euclid', 'f64::rem_euclid', 'std::f64::rem_euclid')
+def m_rem_euclid(it, args, fr, callee):
+    r = it.fbinop('Rem', args[0], args[1])
+    neg = it.fbinop('Lt', r, Sc('f64', 0))
+    if it.truth(neg):
+        return it.fbinop('Add', r, MODELS['f64::abs'](it, [args[1]], fr, callee))
+    return r
+
+
+@tmodel('*', 'Iterator', 'take_while')
+def m_iter_take_while(it, args, fr, callee):
+    src = _iter_arg(it, args[0], fr)
+    f = args[1]
+
+    def gen():
+        for x in src.gen:
+            cell = [x]
+            if not it.truth(it.call_value(f, [Ref(cell, 0)], fr)):
+                return
+            yield cell[0]
+    return IterV(gen(), 'take_while')
+
+
+@tmodel('*', 'Iterator', 'skip_while')
+def m_iter_skip_while(it, args, fr, callee):
+    src = _iter_arg(it, args[0], fr)
+    f = args[1]
+
+    def gen():
+        skipping = True
+        for x in src.gen:
+            cell = [x]
+            if skipping and it.truth(it.call_value(f, [Ref(cell, 0)], fr)):
+                continue
+            skipping = False
+            yield cell[0]
+    return IterV(gen(), 'skip_while')
